@@ -21,20 +21,31 @@ use std::fmt::Display;
 
 pub trait Lab: Label + Display + 'static {
     fn parse(s: &str) -> Self;
+    /// filler value for the unused slots of a strided parent array
+    fn poison() -> Self;
 }
 impl Lab for bool {
     fn parse(s: &str) -> Self {
         s == "true"
+    }
+    fn poison() -> Self {
+        true
     }
 }
 impl Lab for usize {
     fn parse(s: &str) -> Self {
         s.parse().expect("usize label")
     }
+    fn poison() -> Self {
+        999
+    }
 }
 impl Lab for String {
     fn parse(s: &str) -> Self {
         s.to_string()
+    }
+    fn poison() -> Self {
+        "zzz".to_string()
     }
 }
 
@@ -383,6 +394,73 @@ pub fn run_len_mismatch(case: &Case, viols: &mut Sink) -> Cnt {
         Ok(Err(_)) => {}
         Ok(Ok(())) => report!(viols, "confusion_matrix.length_mismatch_accepted", case, at("confusion_matrix"), "vectors of length {} and {} were accepted", n_pred, n_truth),
         Err(p) => report!(viols, "confusion_matrix.length_mismatch_panic", case, at("confusion_matrix"), "vectors of length {} and {} panicked: {}", n_pred, n_truth, p),
+    }
+    cnt
+}
+
+// ---------------------------------------------------------------------------------------------
+// memory layouts: label vectors handed over as reversed / strided views
+// ---------------------------------------------------------------------------------------------
+use crate::layout::{hold1, L1, L1_ALL};
+
+pub fn lay_labels<L: Lab>(outer: &Case, alphabet: &[String], pred: &[usize], truth: &[usize], viols: &mut Sink) -> Cnt {
+    let mut cnt = Cnt::default();
+    let lp: Vec<L> = pred.iter().map(|&i| L::parse(&alphabet[i])).collect();
+    let lt: Vec<L> = truth.iter().map(|&i| L::parse(&alphabet[i])).collect();
+    let ap = Array1::from(lp.clone());
+    let at_ = Array1::from(lt.clone());
+    let Ok(Ok(base)) = guarded(|| ap.confusion_matrix(&at_)) else {
+        return cnt; // reported by the standard-layout sweep
+    };
+    cnt.evals += 1;
+    cnt.nontrivial += 1;
+    cnt.bump("layouts.labels_cases", 1);
+    let poison = |_: usize| L::poison();
+    for (lpn, l1) in L1_ALL {
+        for (ltn, l2) in L1_ALL {
+            if l1 == L1::Std && l2 == L1::Std {
+                continue;
+            }
+            let hp = hold1(&lp, &poison, l1);
+            let ht = hold1(&lt, &poison, l2);
+            let (pv, tv) = (hp.view(), ht.view());
+            cnt.bump("layouts.labels_layout_runs", 1);
+            cnt.bump("layouts.values_compared", 1);
+            let a = json!({"metric": "confusion_matrix", "pred_layout": lpn, "truth_layout": ltn});
+            match guarded(|| pv.confusion_matrix(&tv)) {
+                Ok(Ok(cm)) => {
+                    if cm != base {
+                        report!(
+                            viols,
+                            "confusion_matrix.layout_dependence",
+                            outer,
+                            a,
+                            "prediction as {}, truth as {}: matrix {:?}, standard-layout arrays with the same labels give {:?}",
+                            lpn,
+                            ltn,
+                            parse_cm(&cm).ok().map(|p| p.m),
+                            parse_cm(&base).ok().map(|p| p.m)
+                        );
+                    }
+                }
+                Ok(Err(e)) => {
+                    report!(viols, "confusion_matrix.layout_dependence", outer, a, "prediction as {}, truth as {}: Err({})", lpn, ltn, e);
+                }
+                Err(p) => {
+                    let sig = if p.contains("on a `None` value") { "confusion_matrix.non_contiguous_view_panics" } else { "confusion_matrix.layout_dependence" };
+                    report!(
+                        viols,
+                        sig,
+                        outer,
+                        a,
+                        "confusion_matrix with the prediction as {} and the truth as {} (valid non-contiguous ndarray views with the same labels) panicked: {}",
+                        lpn,
+                        ltn,
+                        p
+                    );
+                }
+            }
+        }
     }
     cnt
 }
